@@ -53,6 +53,11 @@ pub struct Case {
     /// this case idles / drops its own iterator; it must be unaffected
     #[serde(default)]
     pub second_pipe: Option<(u8, usize)>,
+    /// lane "panic": what the child process does before it builds the pipe whose item panics:
+    /// 0 nothing, 1 a two-worker pipe consumed to the end, 2 such a pipe and then a train_bpe run
+    /// (which installs its own, print-only panic hook), 3 only the train_bpe run
+    #[serde(default)]
+    pub prelude: u8,
 }
 
 fn yes() -> bool {
@@ -227,6 +232,7 @@ impl Prop for C09 {
                 idle_before_drop: true,
                 slow: vec![],
                 second_pipe: None,
+                prelude: 0,
             };
         }
         let stack = match rng.random_range(0..3) {
@@ -268,6 +274,7 @@ impl Prop for C09 {
                 idle_before_drop: true,
                 slow: vec![],
                 second_pipe: None,
+                prelude: *[0u8, 0, 1, 2, 2, 3].get(rng.random_range(0..6)).unwrap(),
             };
         }
         let controlled = lane == "sched";
@@ -344,6 +351,7 @@ impl Prop for C09 {
             } else {
                 None
             },
+            prelude: 0,
         }
     }
 
@@ -766,9 +774,12 @@ fn check_panic(c: &Case, obs: &mut Obs) {
     };
     use std::os::unix::process::ExitStatusExt;
     let desc = format!(
-        "{:?} W={} buffer={} n={:?} panic_at={:?}",
-        c.stack, c.threads, c.buffer, c.upstream, c.panic_at
+        "{:?} W={} buffer={} n={:?} panic_at={:?} prelude={}",
+        c.stack, c.threads, c.buffer, c.upstream, c.panic_at, c.prelude
     );
+    obs.tag_if(c.prelude == 1, "prelude-clean-pipe");
+    obs.tag_if(c.prelude == 2, "prelude-clean-pipe-then-train_bpe");
+    obs.tag_if(c.prelude == 3, "prelude-train_bpe");
     match (status.code(), status.signal()) {
         (Some(3), _) => obs.fail(
             "panic/consumer-wedged",
@@ -807,6 +818,41 @@ pub fn child(spec: &str) -> i32 {
     let Ok(c) = serde_json::from_str::<Case>(spec) else {
         return 5;
     };
+    // earlier use of the crate in the same process (before the hooks are installed, so these
+    // threads are not participants): the pipe built afterwards must be protected all the same
+    if c.prelude == 1 || c.prelude == 2 {
+        let src = MonSource {
+            i: 0,
+            n: 20,
+            limit: usize::MAX,
+            pulled: Arc::new(AtomicUsize::new(0)),
+            consumed: Arc::new(AtomicUsize::new(0)),
+            drop_mark: Arc::new(AtomicUsize::new(usize::MAX)),
+            max_ahead: Arc::new(AtomicUsize::new(0)),
+            max_after_drop: Arc::new(AtomicUsize::new(0)),
+            exceeded: Arc::new(AtomicBool::new(false)),
+            exceeded_before_drop: Arc::new(AtomicBool::new(false)),
+            dropped: Arc::new(AtomicBool::new(false)),
+        };
+        let it = build(&Stack::Pipe, src, 2, 0, vec![], vec![]);
+        if it.count() != 20 {
+            return 5;
+        }
+    }
+    if c.prelude >= 2 {
+        let dir = std::env::temp_dir().join(format!("tuverif-{}", std::process::id()));
+        let _ = std::fs::create_dir_all(&dir);
+        let corpus = dir.join("c09-prelude.txt");
+        let out = dir.join("c09-prelude.bin");
+        if std::fs::write(&corpus, "ab ab abc abc abd\nab abc ab\n").is_err() {
+            return 5;
+        }
+        let r = text_utils::tokenization::train_bpe(&[corpus.as_path()], 320, 60, out.as_path(), None, None, 2, false);
+        let _ = std::fs::remove_dir_all(&dir);
+        if r.is_err() {
+            return 5;
+        }
+    }
     let s = sched::sched();
     s.ensure_installed();
     let w = c.threads as usize;
